@@ -8,14 +8,11 @@ import UnytProofs.Lemmas.C14Chunk02  -- build order only: at most four chunks ar
 namespace Unyt.C14
 
 /-- every listed name of chunk 6 (four slices of 64 rows) is read by the string route and by the
-    three attribute routes as the independent reference reads it (guard: word-prefixed °C) -/
+    three attribute routes as the independent reference reads it -/
 theorem names_slice_06_0 : namesSliceOk 6 0 = true := by decide +kernel
 theorem names_slice_06_1 : namesSliceOk 6 1 = true := by decide +kernel
 theorem names_slice_06_2 : namesSliceOk 6 2 = true := by decide +kernel
 theorem names_slice_06_3 : namesSliceOk 6 3 = true := by decide +kernel
-
-/-- every excluded name of chunk 6 really is unusable as a unit string -/
-theorem exclusions_chunk_06 : exclusionsChunkOk 6 = true := by decide +kernel
 
 /-- prefix spellings 3·6 … 3·6+2 (symbols, then word forms) are rejected on every
     non-prefixable spelling (three slices of 110 spelling rows) -/
